@@ -53,6 +53,37 @@ def short(q):
     return q.split("::")[-1]
 
 
+_MEMBER_VECTORS = None
+
+
+def member_vectors():
+    """names declared as `std::vector<…> name;` in any header of /repo/include (data members): the only containers whose
+    element references are invalidated by growth.  std::list / std::deque / maps are deliberately not tracked."""
+    global _MEMBER_VECTORS
+    if _MEMBER_VECTORS is None:
+        names = set()
+        inc = os.path.join(T.REPO, "include")
+        for d, _, fs in os.walk(inc):
+            for f in fs:
+                if f.endswith(".hpp"):
+                    txt = X.strip_comments(open(os.path.join(d, f), errors="replace").read()) if hasattr(X, "strip_comments") else open(os.path.join(d, f), errors="replace").read()
+                    for m in re.finditer(r"std\s*::\s*vector\s*<[^;{}()]*>\s*(\w+)\s*(?:;|=|\{)", txt):
+                        names.add(m.group(1))
+        _MEMBER_VECTORS = names - {"node_lst_", "face_lst_", "edge_lst_"}
+    return _MEMBER_VECTORS
+
+
+GROW_METHODS = r"(?:push_back|emplace_back|insert|resize|reserve|clear|erase|pop_back|assign|shrink_to_fit)"
+
+
+def local_vectors(text):
+    """std::vector locals / parameters / members that this function text may reallocate (or shrink): name -> id >= 4"""
+    cands = set(re.findall(r"std::vector\s*<[^;{}]*?>\s*&?\s*(\w+)\s*(?:[;=,){(]|$)", text)) | member_vectors()
+    cands -= {"node_lst_", "face_lst_", "edge_lst_", "cell_lst"}
+    grown = sorted(n for n in cands if re.search(r"(?<![\w.>])" + re.escape(n) + r"\s*(?:\.|->)\s*" + GROW_METHODS + r"\s*\(", text))
+    return {n: 4 + i for i, n in enumerate(grown)}
+
+
 def container_of_expr(expr, ctx):
     """which growable container does this initialiser reach into"""
     e = expr
@@ -83,7 +114,7 @@ def direct_grows(stmt, ctx):
     return g
 
 
-REF_DECL = re.compile(r"^(?:const\s+)?(?:node|face|edge|oriented_point|auto|cell_ptr)\s*&\s*(\w+)\s*(?:=|\()(.*)$", re.S)
+REF_DECL = re.compile(r"^(?:const\s+)?(?:[A-Za-z_][\w:]*(?:\s*<[^;=]*>)?)\s*(?:&|\*)\s*(\w+)\s*(?:=|\()(.*)$", re.S)
 IT_DECL = re.compile(r"^(?:const\s+)?auto\s+(\w+)\s*=\s*(.*)$", re.S)
 RANGE_FOR = re.compile(r"^\s*(?:const\s+)?(?:\w+(?:::\w+)*)\s*&\s*(\w+)\s*:\s*(.+)$", re.S)
 
@@ -191,9 +222,22 @@ def diverges(items):
     return False
 
 
+def flat_text(items):
+    out = []
+    for it in items:
+        if it[0] == "stmt":
+            out.append(it[1])
+        elif it[0] == "block":
+            out.append(flat_text(it[1]))
+        else:
+            out.append(it[1]); out.append(flat_text(it[2]))
+    return " ; ".join(out)
+
+
 class FnAnalysis:
-    def __init__(self, ctx, grows_of):
+    def __init__(self, ctx, grows_of, locals_=None):
         self.ctx = ctx
+        self.locals = locals_ or {}    # other std::vector containers this function may reallocate: name -> id >= 4
         self.grows_of = grows_of       # name -> set of containers (summaries of analysed functions)
         self.refs = {}                 # var -> id
         self.events = []
@@ -205,6 +249,27 @@ class FnAnalysis:
             self.refs[v] = len(self.refs)
         return self.refs[v]
 
+    def container(self, expr):
+        c = container_of_expr(expr, self.ctx)
+        if c is not None:
+            return c
+        for n, i in self.locals.items():
+            if re.search(r"(?<![\w.>])" + re.escape(n) + r"\s*(?:\[|(?:\.|->)\s*(?:back|front|at|begin|end|data|rbegin|rend|cbegin|cend)\s*\()", expr):
+                return i
+        return None
+
+    def grows(self, stmt):
+        g = set(direct_grows(stmt, self.ctx))
+        for n, i in self.locals.items():
+            if re.search(r"(?<![\w.>])" + re.escape(n) + r"\s*(?:\.|->)\s*" + GROW_METHODS + r"\s*\(", stmt):
+                g.add(i)
+        return g
+
+    def cname(self, c):
+        if c in CNAME:
+            return CNAME[c]
+        return next((n for n, i in self.locals.items() if i == c), "container%d" % c)
+
     def stmt(self, s, bound):
         """bound: dict var -> container currently tracked (for use detection)"""
         s = s.strip()
@@ -213,15 +278,27 @@ class FnAnalysis:
         m = REF_DECL.match(re.sub(r"^(?:else\s+)?", "", s))
         it = None
         if m:
-            c = container_of_expr(m.group(2), self.ctx)
+            c = self.container(m.group(2))
             if c is not None:
                 decl = (m.group(1), c, m.group(2))
         else:
             mi = IT_DECL.match(s)
             if mi and re.search(r"std\s*::\s*find\s*\(|\.begin\s*\(|\.end\s*\(", mi.group(2)):
-                c = container_of_expr(mi.group(2), self.ctx)
+                c = self.container(mi.group(2))
                 if c is not None:
                     decl = (mi.group(1), c, mi.group(2))
+        if decl is None:
+            # a pointer (re)assigned to the address of an element: `p = &ref;` / `p = &container[i];` / `T* p = &ref;`
+            ma = re.match(r"^(?:(?:const\s+)?[A-Za-z_][\w:]*(?:\s*<[^;=]*>)?\s*\*\s*)?(\w+)\s*=\s*&\s*(.+)$", s, re.S)
+            if ma:
+                tgt = ma.group(2).strip()
+                c = self.container(tgt)
+                if c is None:
+                    mv = re.match(r"^\(?\s*(\w+)\s*\)?$", tgt)
+                    if mv and mv.group(1) in bound:
+                        c = bound[mv.group(1)]
+                if c is not None:
+                    decl = (ma.group(1), c, ma.group(2))
         rhs = decl[2] if decl else s
         # uses of tracked references in this statement (before a binding of the same name takes effect)
         words = re.findall(r"[A-Za-z_]\w*", rhs)
@@ -229,8 +306,8 @@ class FnAnalysis:
             if w in bound and not (decl and w == decl[0]):
                 self.events.append(("use", self.rid(w), w))
         # growths
-        g = set(direct_grows(rhs, self.ctx))
-        self.direct |= g
+        g = self.grows(rhs)
+        self.direct |= {c for c in g if c < 4}
         for name, gs in self.grows_of.items():
             # a call of an analysed function: bare (`split_edge(…)`) or through a cell pointer (`c->create_face(…)`);
             # never a method called on an object with '.' (edge::add_face, edge::delete_face) and, inside the ball
@@ -240,7 +317,7 @@ class FnAnalysis:
             if re.search(r"(?:(?<![\w.>])|\bc\s*->\s*|\bthis\s*->\s*)" + re.escape(name) + r"\s*\(", rhs):
                 g |= gs
         for c in sorted(g):
-            self.events.append(("grow", c, CNAME[c]))
+            self.events.append(("grow", c, self.cname(c)))
         if decl:
             # `face& f = face_lst_.emplace_back(...)`: the growth (above) precedes the binding
             bound[decl[0]] = decl[1]
@@ -266,7 +343,7 @@ class FnAnalysis:
                 m = RANGE_FOR.match(hdr)
                 rng = None
                 if m:
-                    c = container_of_expr(m.group(2) + "[", self.ctx) if re.fullmatch(r"\s*\w+\s*", m.group(2)) else container_of_expr(m.group(2), self.ctx)
+                    c = self.container(m.group(2) + "[") if re.fullmatch(r"\s*\w+\s*", m.group(2)) else self.container(m.group(2))
                     if c is None and re.fullmatch(r"\s*(node_lst_|face_lst_|edge_lst_|cell_lst)\s*", m.group(2)):
                         c = {"node_lst_": NODES, "face_lst_": FACES, "edge_lst_": EDGES if self.ctx == "bpa" else None,
                              "cell_lst": CELLS if self.ctx == "div" else None}[m.group(2).strip()]
@@ -300,6 +377,19 @@ ALL_FILES = [
     ("src/contact_models/contact_node_node_via_coupling.cpp", "contact_node_node_via_coupling", "cell"),
     ("src/time_integration/time_integration.cpp", "time_integration_scheme", "cell"),
     ("src/solver.cpp", "solver", "div"),
+    ("src/contact_models/contact_node_face_via_spring.cpp", "contact_node_face_via_spring", "cell"),
+    ("src/contact_models/contact_face_face_via_coupling.cpp", "contact_face_face_via_coupling", "cell"),
+    ("src/io/mesh_reader.cpp", "mesh_reader", "cell"),
+    ("src/io/mesh_writer.cpp", "mesh_writer", "cell"),
+    ("src/io/parameter_reader.cpp", "parameter_reader", "cell"),
+    ("src/io/simulation_initializer.cpp", "simulation_initializer", "div"),
+    ("src/io/statistics_writer.cpp", "csv_file_statistics_writer", "cell"),
+    ("src/io/statistics_writer.cpp", "string_statistics_writer", "cell"),
+    ("src/automatic_polarization/automatic_polarizer.cpp", "automatic_polarizer", "cell"),
+    ("src/automatic_polarization/automatic_polarization_writer.cpp", "automatic_polarization_writer", "cell"),
+    ("src/mesh/edge.cpp", "edge", "cell"),
+    ("src/mesh/face.cpp", "face", "cell"),
+    ("src/mesh/node.cpp", "node", "cell"),
 ]
 
 
@@ -322,6 +412,31 @@ def all_definitions(src, cls):
     return out
 
 
+def find_definition(src, qualname, occurrence=0):
+    """like cxx2lean.find_function, but also accepts constructors with a member-initialiser list"""
+    pat = re.compile(r"(?<![\w:])" + re.escape(qualname) + r"\s*\(")
+    k = 0
+    for m in pat.finditer(src):
+        p0 = m.end() - 1
+        try:
+            p1 = X.match_brace(src, p0, "(", ")")
+        except X.TranslateError:
+            continue
+        rest = src[p1 + 1:p1 + 300]
+        mm = re.match(r"\s*(const)?\s*(noexcept(\s*\([^)]*\))?)?\s*(override)?\s*(:[^{;]*)?\{", rest)
+        if not mm:
+            continue
+        if k < occurrence:
+            k += 1
+            continue
+        b0 = p1 + 1 + mm.end() - 1
+        b1 = X.match_brace(src, b0)
+        # the initialiser list is evaluated before the body: keep it as a leading statement
+        init = (mm.group(5) or "")[1:].strip()
+        return src[p0 + 1:p1], ((init + " ; ") if init else "") + src[b0 + 1:b1]
+    raise X.TranslateError("function %s not found" % qualname)
+
+
 def analyse_all():
     srcs = {}
     bodies = {}
@@ -339,7 +454,7 @@ def analyse_all():
         if rel not in srcs:
             srcs[rel] = T.src(rel)
         try:
-            _, body = X.find_function(srcs[rel], q, k)
+            _, body = find_definition(srcs[rel], q, k)
             tree = split_statements(body)
         except X.TranslateError as e:
             if (rel, q) in listed:
@@ -353,12 +468,12 @@ def analyse_all():
     for _ in range(6):
         changed = False
         for q, (ctx, tree) in bodies.items():
-            a = FnAnalysis(ctx, {k: v for k, v in grows.items() if k != short(q)})
+            a = FnAnalysis(ctx, {k: v for k, v in grows.items() if k != short(q)}, local_vectors(flat_text(tree)))
             a.tree(tree, {})
             g = set(a.direct)
             for evs in [a.events] + a.alternatives:
                 for ev in evs:
-                    if ev[0] == "grow":
+                    if ev[0] == "grow" and ev[1] < 4:
                         g.add(ev[1])
             if g != grows[short(q)]:
                 grows[short(q)] = g; changed = True
@@ -366,7 +481,7 @@ def analyse_all():
             break
     out = {}
     for q, (ctx, tree) in bodies.items():
-        a = FnAnalysis(ctx, {k: v for k, v in grows.items() if k != short(q)})
+        a = FnAnalysis(ctx, {k: v for k, v in grows.items() if k != short(q)}, local_vectors(flat_text(tree)))
         a.tree(tree, {})
         out[q] = a
     return out, grows
